@@ -2,7 +2,7 @@
 # tools/seeded.sh <seeded-dir> <check-id>... : apply a seeded change to /repo, run the given quick checks, restore /repo.
 # prints one line per check: id, exit code, first signatures
 set -u
-D="$1"; shift
+D="$(cd "$1" && pwd)"; shift
 cd /repo && git diff --quiet || { echo "repo dirty"; exit 2; }
 git -C /repo apply "$D/patch.diff" || { echo "patch does not apply"; exit 2; }
 trap 'git -C /repo checkout -- . ; git -C /repo clean -fdq -- pkg 2>/dev/null' EXIT
